@@ -172,4 +172,3 @@ Theorem C01_tie_rpq_forces_eval :
   map fst o_rpq_eval.o_rpq_eval = ["self.vq.eval"; "self.vq"].
 Proof. exact (@glue_rpq_forces_eval). Qed.
 Print Assumptions C01_tie_rpq_forces_eval.
-
